@@ -50,10 +50,13 @@ LATE = (10.0, 10.0, 10.5, 14.0)
 def plan(tier):
     return {
         "sweeps": [("long", {"V": V, "n": 300, "faults": False, "sched": False}, None) for V in (4, 8, 14)]
-        + [("twin", {"VA": a, "VB": b, "sched": False}, None) for (a, b) in ((8, 8), (4, 4), (13, 14), (7, 8))],
+        + [("twin", {"VA": a, "VB": b, "sched": False}, None) for (a, b) in ((8, 8), (4, 4), (13, 14), (7, 8))]
+        # the sequence number wraps within less than one command timeout (256+ prompt commands back to back), then a command that is answered
+        # slowly but in time / not at all: nothing left over from the command that used the same number 256 commands earlier may touch it
+        + [("wrapfast", {"V": V, "n": n, "tail": tail, "faults": False, "sched": False}, None) for V in (4, 8, 14) for n in (256, 257, 300) for tail in ("slow", "never")],
         "sweep_random_tail": True,
         "exhaustive": "",
-        "random": [("mix", {}, 6), ("long", {}, 1), ("twin", {}, 1), ("soak", {}, 1)],
+        "random": [("mix", {}, 6), ("long", {}, 1), ("twin", {}, 1), ("wrapfast", {}, 1), ("soak", {}, 1)],
         "runs": 2800 if tier == "quick" else None,
         "budget_s": 60 if tier == "quick" else 900,
         "batch": 25,
@@ -239,12 +242,13 @@ def run(scenario, params, tape, detail=False):
 
         return soak.run(params, tape, detail=detail)
     V = params["V"] if "V" in params else VERSIONS[tape.draw(len(VERSIONS), "V")]
-    long_run = scenario == "long"
+    long_run = scenario in ("long", "wrapfast")
+    wrapfast = scenario == "wrapfast"
     faults = params["faults"] if "faults" in params else (tape.draw(4, "faults?") == 3)
     plan_ = FaultPlan.swarm(tape) if faults else FaultPlan(tape, False)
     plan_.on = False  # bring-up is fault-free
     K = 1 + tape.draw(3, "K")
-    rig = e3.StackRig(tape, version=V, plan=plan_, K=K, sched=params.get("sched", True), max_iters=600_000)
+    rig = e3.StackRig(tape, version=V, plan=plan_, K=K, sched=params.get("sched", True), max_iters=600_000, fast_line=(scenario == "wrapfast" and not faults))
     rig.line.ties = False
     loop, ncp = rig.loop, rig.ncp
     viol, probes = [], {}
@@ -347,7 +351,11 @@ def run(scenario, params, tape, detail=False):
             req.nrsp += 1
             ncp.emit(payload, 0.0, "rsp", req.seq)
             return
-        b = BEH[tape.draw(len(BEH), "beh")]
+        if wrapfast:
+            nwork[0] += 1
+            b = "reply" if nwork[0] <= wf["n"] else wf["tail"]
+        else:
+            b = BEH[tape.draw(len(BEH), "beh")]
         beh_seq.append(b)
         probe("behaviour." + b)
         req_beh[req.idx] = b
@@ -361,8 +369,10 @@ def run(scenario, params, tape, detail=False):
             req.nrsp += 1
             ncp.emit(pl, 0.0, "rsp")
 
-        if b == "reply":
-            d = (0.0, 0.0, 0.001, 0.05)[tape.draw(4, "rdelay")]
+        if b == "slow":
+            loop.external(loop.time() + wf["slow_d"], reply, group="ncp-app")
+        elif b == "reply":
+            d = 0.0 if wrapfast else (0.0, 0.0, 0.001, 0.05)[tape.draw(4, "rdelay")]
             if d:
                 loop.external(loop.time() + d, reply, group="ncp-app")
             else:
@@ -403,6 +413,12 @@ def run(scenario, params, tape, detail=False):
         return False
 
     req_beh = {}
+    nwork = [0]
+    wf = {}
+    if wrapfast:
+        wf["n"] = params.get("n") or 256 + tape.draw(60, "wf.n")
+        wf["tail"] = params.get("tail") or ("slow", "never")[tape.draw(2, "wf.tail")]
+        wf["slow_d"] = (5.0, 8.0, 9.1, 9.0)[tape.draw(4, "wf.d")]  # + up to 0.8 s of line latency stays inside the 10 s if "tail" not in params else 8.0
     wrong_emitted = []
     workload_on = [False]
     ncp.deliver = deliver
@@ -505,8 +521,14 @@ def run(scenario, params, tape, detail=False):
         if faults:
             plan_.on = True
         n = params.get("n") or ((300 + 40 * tape.draw(4, "nlong")) if long_run else 2 + tape.draw(11, "n"))
+        if wrapfast:
+            n = wf["n"] + 3  # the slow / unanswered tail: three commands, each the 257th after an earlier one
         tt = loop.time()
         gaps = (0.0, 0.0, 0.0005, 0.01, 0.3) if long_run else (0.0, 0.0, 0.0005, 0.01, 1.0, 11.0)
+        if wrapfast:
+            # 256 commands spread over 1.3-7.7 s: whatever the command that used a sequence number 256 commands ago left behind (a timer, an
+            # entry) comes due while the slow tail command that reuses the number is still waiting for its reply
+            gaps = (0.02,) if "tail" in params else ((0.005,), (0.02,), (0.03,), (0.005, 0.03))[tape.draw(4, "wf.gaps")]
         for i in range(n):
             tt += gaps[tape.draw(len(gaps), "gap")]
             name = NAMES[tape.draw(len(NAMES), "cmd")]
@@ -601,7 +623,7 @@ def run(scenario, params, tape, detail=False):
                     if c["t_end"] > c["t_sent"] + 10.0 + 1e-6:
                         viol.append(("C06.timeout", "late", f"call {c['id']} raised TimeoutError at t={c['t_end']:.6f}, {c['t_end'] - c['t_sent']:.6f}s after its request was handed over"))
                     ri = c.get("req_idx")
-                    if ri is not None and req_beh.get(ri) in ("reply", "cb_before", "cb_after", "dup") and not faults:
+                    if ri is not None and req_beh.get(ri) in ("reply", "cb_before", "cb_after", "dup", "slow") and not faults:
                         viol.append(("C06.own", "reply-ignored", f"call {c['id']} ({c['name']}, seq {c['seq']}) timed out although the NCP replied promptly under its sequence"))
             else:
                 probe("call_other_exc")
